@@ -297,19 +297,19 @@ def current_sim():
 
 
 class Feeder:
-    """the queue's feeder thread: moves one buffered item into the pipe per step"""
+    """the queue's feeder threads (one per putting process): each moves one of its buffered items
+    into the shared pipe per step"""
 
     def __init__(self, q):
         self.q = q
         self.name = "F"
 
     def enabled(self):
-        if self.q.buf:
-            return [Action(self, "flush", self.q.name)]
-        return []
+        return [Action(self, "flush", f"{self.q.name} {owner} {fmt(b[0])}") for owner, b in self.q.bufs.items() if b]
 
     def fire(self, a):
-        self.q.pipe.append(self.q.buf.pop(0))
+        owner = a.info.split()[1]
+        self.q.pipe.append(self.q.bufs[owner].pop(0))
 
 
 class Queue:
@@ -320,12 +320,16 @@ class Queue:
         Queue._n += 1
         self.name = f"q{len(self.sim.feeders)}"
         self.maxsize = maxsize
-        self.buf, self.pipe = [], []
+        self.bufs, self.pipe = {}, []
         self.outstanding = 0     # semaphore count: items put and not yet received
         self.rlock = None
         self.closed = False
         self.feeder = Feeder(self)
         self.sim.feeders.append(self.feeder)
+
+    @property
+    def buf(self):
+        return [x for b in self.bufs.values() for x in b]
 
     def put(self, item, block=True, timeout=None):
         sim, me = self.sim, self.sim.cur()
@@ -342,7 +346,7 @@ class Queue:
         if self.closed:
             raise ValueError("Queue is closed")
         self.outstanding += 1
-        self.buf.append(item)
+        self.bufs.setdefault(me.name, []).append(item)
 
     def get(self, block=True, timeout=None):
         sim, me = self.sim, self.sim.cur()
@@ -383,7 +387,7 @@ class Queue:
 
     def join_thread(self):
         me = self.sim.cur()
-        self.sim.point(lambda: [Action(me, "join-thread", self.name)] if not self.buf else [])
+        self.sim.point(lambda: [Action(me, "join-thread", self.name)] if not self.bufs.get(me.name) else [])
 
     def cancel_join_thread(self):
         pass
